@@ -24,10 +24,11 @@ CLAIMED = {
     },
     'C26': {
         'level': 'Decides the structural half of the round trip for every name and payload: the key table written by dumps equals the one read by '
-                 'loads, each key is fed from the right attribute, the signal number is never serialised, loads rebuilds from the name. Payload '
-                 'equality after json is a property of runtime values and is not decided.',
+                 'loads, each key is fed from the right attribute, the signal number is never serialised, loads rebuilds from the name; and the composition '
+                 'loads(dumps(e)) is evaluated in the finite evaluator on eleven payload shapes (None, falsy scalars and containers, nested) with the '
+                 'stdlib codec. Payload equality for arbitrary runtime values beyond that domain rests on json being an inverse pair.',
         'note': 'Trusted: json.dumps/json.loads are inverse on JSON-representable values. Event(name) registration is covered by C25.',
-        'technique': SA + 'writer/reader table agreement by local def-use dataflow',
+        'technique': SA + 'writer/reader table agreement by local def-use dataflow; finite-domain evaluation of dumps then loads',
     },
     'C27': {
         'level': 'Decides lockset facts of the get/set hand-over protocol that hold for every interleaving: which accesses are inside the critical '
@@ -35,7 +36,8 @@ CLAIMED = {
                  'outside the lock. The open finding (flag read before acquire) is listed in known_findings.json.',
         'note': 'Trusted: RLock semantics; `obj.x += v` is __get__ then __set__ on one thread. Serialisability of the final value is argued from the '
                 'lockset, not explored.',
-        'technique': SA + 'lockset dataflow (set of lock depths per CFG node), dominance / post-dominance of acquire and release',
+        'technique': SA + 'lockset dataflow (set of lock depths per CFG node), dominance / post-dominance of acquire and release; blocking-acquire rule; '
+                     'finite evaluation of the line classifier on the 13 augmented-assignment operators',
     },
     'C28': {
         'level': 'Decides, over the complete finite universe of Python operator tokens, which statement forms the source-line classifier treats as '
@@ -43,7 +45,8 @@ CLAIMED = {
                  'per-statement) scope of the classifier is a design limitation recorded as an open finding.',
         'note': 'Trusted: inspect.getframeinfo gives the physical source line; token.EXACT_TOKEN_TYPES of the interpreter is the operator universe. '
                 'The regex literal is evaluated by the stdlib engine on the finite token universe (constant evaluation, not execution of miros).',
-        'technique': SA + 'constant evaluation of the classifier regex over token.EXACT_TOKEN_TYPES + path counting of release() per branch',
+        'technique': SA + 'constant evaluation of the classifier regex and of the classifier functions as a whole over token.EXACT_TOKEN_TYPES + path counting of '
+                     'release() per branch',
     },
     'C29': {
         'level': 'Decides for every program whether values can leak between instances: the descriptor object is per class, so the storage its '
